@@ -253,10 +253,14 @@ func c03TornTail(c *Ctx, rule string) {
 			// `err != nil` is true, `err == nil` false.
 			edge := func(b *cfg.Block, si int) bool {
 				info, ok := g.EdgeInfo(b, si)
-				if !ok || info.Case {
+				if !ok {
 					return true
 				}
-				if v, known := evalErrCond(rf, info.Cond, errObj, sentinel); known {
+				cond, ok := info.Test() // `switch err { case io.EOF: … }` tests err == io.EOF
+				if !ok {
+					return true
+				}
+				if v, known := evalErrCond(rf, cond, errObj, sentinel); known {
 					return v == info.Val
 				}
 				return true
